@@ -549,6 +549,15 @@ func (st *State) symbolic(t types.Type, hint string) Val {
 	}
 	st.assume(typeConstraint(t, v.C))
 	st.assumeAllocated(v)
+	if isNamed(t, "github.com/aukilabs/hagall-common/websocket", "Msg") {
+		// A-decoded: a Msg handed to the server code was produced by hwebsocket.Receive / MsgFromProto: its Type is set
+		for i, c := range comps(t) {
+			if c.Suffix == ".Type" {
+				st.assume(Neq(v.C[i], TZero))
+			}
+		}
+		st.x.assumeNote("A-decoded: every hwebsocket.Msg value reaching the server code has a non-nil Type (set by hwebsocket.Receive from the enum field of the envelope)")
+	}
 	return v
 }
 
